@@ -332,9 +332,22 @@ def main():
     if hasattr(mod, 'check_case'):
         _orig_check_case = mod.check_case
 
-        def _guarded_check_case(ctx_, case_, _f=_orig_check_case):
+        class _CaseTimeout(Exception):
+            pass
+
+        def _on_alarm(signum, frame):
+            raise _CaseTimeout()
+
+        def _guarded_check_case(ctx_, case_, *a_, _f=_orig_check_case, **kw_):
+            import signal
+            limit_ = int(os.environ.get('VERIF_CASE_TIMEOUT', '600'))
+            old_ = signal.signal(signal.SIGALRM, _on_alarm)
+            signal.alarm(limit_)
             try:
-                return _f(ctx_, case_)
+                return _f(ctx_, case_, *a_, **kw_)
+            except _CaseTimeout:
+                # a single case normally takes well under a second: a library call that does not come back is an outcome
+                return [('violation', 'case-timeout', 'the case did not finish within %d s' % limit_)]
             except Exception as e_:
                 tb_ = traceback.extract_tb(e_.__traceback__)
                 if tb_ and os.sep + 'pyerrors' + os.sep in tb_[-1].filename and os.sep + 'driver' + os.sep not in tb_[-1].filename:
@@ -343,6 +356,9 @@ def main():
                         type(e_).__name__, str(e_)[:160], os.path.basename(tb_[-1].filename), tb_[-1].lineno,
                         os.path.basename(where_[-1].filename) if where_ else '?', where_[-1].lineno if where_ else 0))]
                 raise
+            finally:
+                signal.alarm(0)
+                signal.signal(signal.SIGALRM, old_)
         mod.check_case = _guarded_check_case
 
     try:
